@@ -709,11 +709,24 @@ Fixpoint metrics_from (m : mode) (hv : option hvar) (inst : list Z) (all : list 
   | _, _ => Ok []
   end.
 
+(* SimpleGlyph::write stores each coordinate as an i16 difference from the previous point
+   (i16::try_from(..)?: a glyph whose consecutive points are further apart cannot be written) *)
+Fixpoint deltas_fit (prev : Z) (l : list Z) : bool :=
+  match l with
+  | [] => true
+  | x :: r => (-32768 <=? x - prev) && (x - prev <=? 32767) && deltas_fit x r
+  end.
+Definition writable (g : glyph) : bool :=
+  match g with
+  | GSimple coords _ => deltas_fit 0 (map fst coords) && deltas_fit 0 (map snd coords)
+  | _ => true
+  end.
+
 Definition instance_glyphs (m : mode) (axis_count : Z) (shared : list (list Z)) (inst : list Z)
                            (gs : list gspec) (hv : option hvar) : outcome (list varied * list (Z * Z)) :=
   vs <- apply_all m axis_count shared inst gs ;;
   ms <- metrics_from m hv inst vs 0 gs vs ;;
-  Ok (vs, ms).
+  if forallb (fun v => writable (v_glyph v)) vs then Ok (vs, ms) else Err OtherErr (* WriteError::BadValue *).
 
 (* process_mvar over the value records (tag, outer, inner) of an MVAR table whose records are
    sorted by tag and distinct, so the binary search of MvarTable::lookup finds the record itself.
